@@ -206,6 +206,38 @@ def model(hist):
                 lines.append('typedef char %s[%d];' % (n, uid))
             else:
                 lines.append('%schar (*%s)[%d];' % ('static ' if depth == 0 else '', n, uid))
+        elif e[0] == 'sub':
+            # a selection or iteration statement whose NON-compound substatement (or controlling expression) declares n inside an
+            # expression: each such statement and each of its substatements is a block of its own (6.8.4p3, 6.8.5p5)
+            if depth == 0:
+                return None, None
+            form, dk, n = e[1], e[2], e[3]
+            uid += 1
+            ns = 'ord' if dk == 'enumconst' else 'tag'
+            declx = 'sizeof(enum { %s = %d })' % (n, uid) if dk == 'enumconst' else 'sizeof(struct %s { char m[%d]; })' % (n, uid)
+            usex = n if dk == 'enumconst' else 'sizeof(struct %s)' % n
+
+            def asrt(val):
+                return '(void)sizeof(struct { _Static_assert((%s) == %d, "sub"); char c; });' % (usex, val)
+            outer = None
+            for sc in reversed(scopes):
+                tab = sc.ord if ns == 'ord' else sc.tag
+                if n in tab:
+                    outer = tab[n]
+                    break
+            if form == 'then-else-use':
+                # the use in the else branch sees the OUTER entity; only generated when that is an entity of the same kind
+                if outer is None or outer[0] != dk or outer[1] is None:
+                    return None, None
+                lines.append('if (0) (void)%s; else %s' % (declx, asrt(outer[1])))
+            elif form == 'cond-use':
+                lines.append('if (%s) %s' % (declx, asrt(uid)))
+            elif form == 'for-init-use':
+                lines.append('for (unsigned long q%d = %s; 0;) %s' % (uid, declx, asrt(uid)))
+            else:
+                lines.append({'then': 'if (1) (void)%s;', 'else': 'if (0) ; else (void)%s;', 'cond': 'if (%s) ;', 'while': 'while (0) (void)%s;',
+                              'do': 'do (void)%s; while (0);', 'for': 'for (; 0;) (void)%s;', 'switch': 'switch (0) default: (void)%s;',
+                              'while-cond': 'while (!%s) ;', 'switch-cond': 'switch (%s) default: ;'}[form] % declx)
         elif e[0] == 'capture':
             n = e[1]
             found = None
@@ -296,13 +328,25 @@ def render(lines, asserts=False):
 _chk_re = re.compile(rb'data \$(?:\.L)?chk_(\d+)(?:\.\d+)? = align \d+ \{ w (\d+), \}')
 
 
-def histories(names, maxlen, ev=None):
+SUBFORMS = ('then', 'else', 'cond', 'then-else-use', 'cond-use', 'while', 'while-cond', 'do', 'for', 'for-init-use', 'switch', 'switch-cond')
+
+
+def sub_events(n):
+    """sub-alphabet for the implicit blocks of selection and iteration statements"""
+    ev = [('{',), ('}',), ('decl', 'enumconst', n), ('decl', 'stag', n), ('use', 'ord', n), ('use', 'tag', n)]
+    for form in SUBFORMS:
+        for dk in ('enumconst', 'stag'):
+            ev.append(('sub', form, dk, n))
+    return ev
+
+
+def histories(names, maxlen, ev=None, start=()):
     ev = ev or events(names)
 
     def rec(prefix, depth):
-        if prefix:
+        if len(prefix) > len(start):
             yield prefix
-        if len(prefix) == maxlen:
+        if len(prefix) == maxlen + len(start):
             return
         for e in ev:
             if e[0] == '{':
@@ -315,10 +359,11 @@ def histories(names, maxlen, ev=None):
                 nd = depth - 1
             else:
                 nd = depth
-                if depth == 0 and (e[1] in ('label',) or (e[0] == 'use' and e[1] == 'goto')):
+                if depth == 0 and (e[0] == 'sub' or e[1] in ('label',) or (e[0] == 'use' and e[1] == 'goto')):
                     continue
             yield from rec(prefix + (e,), nd)
-    return rec((), 0)
+    d0 = sum(1 for e in start if e[0] == '{') - sum(1 for e in start if e[0] == '}')
+    return rec(tuple(start), d0)
 
 
 def _scope_job(batch):
@@ -346,11 +391,12 @@ def _scope_job(batch):
 def k3_scoping(chk):
     stats = dict(evaluations=0, expected_reject=0, with_uses=0, ambiguous=0, handed_to_c10=0)
     samples = []
-    plans = [(('a',), 4, None), (('a',), 5, tag_events('a')), (NAMES, 3, None)] if chk.quick else \
-        [(('a',), 5, None), (('a',), 6, tag_events('a')), (NAMES, 4, None)]
-    for names, maxlen, evs in plans:
+    SUBSTART = (('decl', 'enumconst', 'a'), ('decl', 'stag', 'a'), ('{',))
+    plans = [(('a',), 4, None, ()), (('a',), 5, tag_events('a'), ()), (NAMES, 3, None, ()), (('a',), 3, sub_events('a'), SUBSTART)] if chk.quick else \
+        [(('a',), 5, None, ()), (('a',), 6, tag_events('a'), ()), (NAMES, 4, None, ()), (('a',), 4, sub_events('a'), SUBSTART)]
+    for names, maxlen, evs, start in plans:
         batch, batches = [], []
-        for h in histories(names, maxlen, evs):
+        for h in histories(names, maxlen, evs, start):
             batch.append(h)
             if len(batch) == 400:
                 batches.append(batch)
@@ -372,7 +418,7 @@ def k3_scoping(chk):
             if chk.expired():
                 break
         if len(samples) < 4:
-            h = next(x for x in histories(names, maxlen, evs) if len(x) == maxlen and any(e[0] == 'use' for e in x))
+            h = next(x for x in histories(names, maxlen, evs, start) if len(x) == maxlen + len(start) and any(e[0] == 'use' for e in x))
             lines, expect = model(h)
             samples.append({'history': [' '.join(e) for e in h], 'program': render(lines), 'expected': expect})
         # two-witness rule: gcc must agree with the reference model before anything is reported
